@@ -27,11 +27,13 @@ struct Cfg {
     data_pack: u32,
     tree_pack: u32,
     tiny_chunks: bool,
+    /// compression level set through `apply_config` between the second and the third backup
+    switch_to: Option<i32>,
 }
 
 impl Cfg {
     fn json(&self) -> Value {
-        json!({"version": self.version, "compression": self.compression, "data_pack": self.data_pack, "tree_pack": self.tree_pack, "tiny_chunks": self.tiny_chunks})
+        json!({"version": self.version, "compression": self.compression, "data_pack": self.data_pack, "tree_pack": self.tree_pack, "tiny_chunks": self.tiny_chunks, "switch_to": self.switch_to})
     }
     fn from_json(v: &Value) -> Self {
         Self {
@@ -40,6 +42,7 @@ impl Cfg {
             data_pack: v["data_pack"].as_u64().unwrap() as u32,
             tree_pack: v["tree_pack"].as_u64().unwrap() as u32,
             tiny_chunks: v["tiny_chunks"].as_bool().unwrap(),
+            switch_to: v["switch_to"].as_i64().map(|x| x as i32),
         }
     }
     fn config(&self, id: &str) -> rustic_core::repofile::ConfigFile {
@@ -71,6 +74,9 @@ fn verify_packs(raw: &RawKey, store: &Store, rep: &mut Report) -> Result<(), (St
         }
         if hdr.iter().any(|b| b.tpe != hdr[0].tpe) {
             return Err(("C08/mixed-pack".into(), format!("pack {} mixes tree and data blobs", &h[..8])));
+        }
+        if hdr.iter().any(|b| b.uncompressed.is_some()) && hdr.iter().any(|b| b.uncompressed.is_none()) {
+            rep.inc("packs_mixing_encodings");
         }
         for b in &hdr {
             rep.inc("blobs_verified");
@@ -197,11 +203,18 @@ fn run_history(raw: &RawKey, cfg: &Cfg, other: &Cfg, rep: &mut Report) -> Result
     let unl = || PruneOptions::default().max_unused(LimitOption::Percentage(0)).max_repack(LimitOption::Unlimited).keep_delete(jiff::Span::new());
     prune(&env, unl().instant_delete(true))?;
     step("prune-repack-slow", &env, &model, rep)?;
+    if let Some(c) = cfg.switch_to {
+        // from here on new blobs are encoded the other way; the fast repack below then merges
+        // compressed and uncompressed blobs (41 and 37 byte header entries) into the same packs
+        let mut repo = es("open", env.open())?;
+        _ = es("config", repo.apply_config(&rustic_core::ConfigOptions::default().set_compression(c)))?;
+        rep.inc("compression_switched");
+    }
     bk(&env, 2, &mut model)?;
     forget(&env, "s1", &mut model)?;
     prune(&env, unl().fast_repack(true).repack_all(true).instant_delete(true))?;
     step("prune-repack-fast", &env, &model, rep)?;
-    if cfg.version == 2 && cfg.compression != Some(0) {
+    if cfg.version == 2 && cfg.compression != Some(0) && cfg.switch_to.is_none() {
         prune(&env, unl().repack_uncompressed(true).instant_delete(true))?;
         step("prune-repack-uncompressed", &env, &model, rep)?;
     }
@@ -271,8 +284,14 @@ fn grid(quick: bool) -> Vec<Cfg> {
                 if quick && !tiny && (dp != 300 || compression == Some(19)) {
                     continue;
                 }
-                v.push(Cfg { version, compression, data_pack: dp, tree_pack: tp, tiny_chunks: tiny });
+                v.push(Cfg { version, compression, data_pack: dp, tree_pack: tp, tiny_chunks: tiny, switch_to: None });
             }
+        }
+    }
+    // repositories whose compression setting changes in mid-history (packs mixing both encodings)
+    for (compression, switch_to) in [(Some(0), 3), (None, 0)] {
+        for (dp, tp) in [(300u32, 300u32), (4 << 20, 4 << 20)] {
+            v.push(Cfg { version: 2, compression, data_pack: dp, tree_pack: tp, tiny_chunks: true, switch_to: Some(switch_to) });
         }
     }
     v
@@ -280,7 +299,7 @@ fn grid(quick: bool) -> Vec<Cfg> {
 
 pub fn run(args: &Args, rep: &mut Report) {
     let raw = RawKey::from_master(&master_key());
-    rep.set_meta("rule", json!("configuration grid {v1, v2 default compression, v2 uncompressed, v2 level 19} x pack sizes {one blob, 300 B, 4 MiB} x chunker {tiny rabin, default}; per configuration one history exercising every pack writer (backup, prune repack re-encoding / fast / repack-uncompressed, merge, rewrite, copy into a repository with another key and configuration, repair snapshots); after every step every pack in the store is decoded independently; at three points every subset of the index files (incl. none, with read-all) is removed before repair-index, run with and without read-all. evaluations = packs verified + index subsets; non-trivial = distinct (configuration, step) pairs with >= 2 packs"));
+    rep.set_meta("rule", json!("configuration grid {v1, v2 default compression, v2 uncompressed, v2 level 19} x pack sizes {one blob, 300 B, 4 MiB} x chunker {tiny rabin, default}, plus v2 repositories whose compression is switched (off->3, default->off) between two backups so that a fast repack merges both encodings into one pack; per configuration one history exercising every pack writer (backup, prune repack re-encoding / fast / repack-uncompressed, merge, rewrite, copy into a repository with another key and configuration, repair snapshots); after every step every pack in the store is decoded independently; at three points every subset of the index files (incl. none, with read-all) is removed before repair-index, run with and without read-all. evaluations = packs verified + index subsets; non-trivial = distinct (configuration, step) pairs with >= 2 packs"));
     if let Some(p) = &args.replay {
         let v: Value = serde_json::from_str(&std::fs::read_to_string(p).unwrap()).unwrap();
         let cfg = Cfg::from_json(&v["case"]["config"]);
